@@ -11,7 +11,9 @@ EXPLANATION = (
     "R3: the run loop has exactly one fetch/increment/execute site; between a Proceed and that site nothing but the PC "
     "increment writes the state; execute has exactly two callers (run loop, eval). R4: nothing reachable from the pausing "
     "code prints to stdout except the program's own traps (through eval->execute), the interactive TTY reader, and "
-    "reviewed exceptions. R5: quit/end-of-input detach the debugger and fall back into the very loop C03 checks."
+    "reviewed exceptions. R5: quit/end-of-input detach the debugger and fall back into the very loop C03 checks. "
+    "R6 (GLOB): for every thread-local that code reachable from the pausing code may write (the line-start tracker), every branch that "
+    "tests it controls no call that can reach stdout - otherwise debugger text on stderr changes what the program prints on stdout."
 )
 NOT_DECIDED = "equality of complete runs (follows on paper from R1-R5 and determinism of execute)"
 
@@ -190,3 +192,66 @@ def run(ctx):
         ctx.violation("stop-not-detached", sp_file_line(rl.term(targets[vidx]).get("sp")),
                       "the StopDebugger arm of the run loop does not detach the debugger")
     ctx.finish_rule()
+
+    # ------------------------------------------------------------------ R6
+    ctx.rule("C09.R6", "what the program writes to stdout does not depend on global state that debugger output changes", floor=1)
+    from ..glob import Globals
+    from ..facts import expr_walk
+    G = Globals(ctx)
+    dbg_reach = ctx.cg.reachable([pz.name])
+    STDOUT = ("std::io::stdio::_print", "std::io::stdio::stdout")
+    def reaches_stdout(t):
+        names = [callee_of(t)] + [c[3:] if c.startswith("fn:") else c for c in t["f"].get("closures", [])]
+        for nm in names:
+            if nm is None:
+                continue
+            if nm in STDOUT or (ctx.cg.reachable([nm]) & set(STDOUT)):
+                return nm
+        return None
+    nshared = 0
+    for k in G.keys:
+        if not (G.writers[k] & dbg_reach):
+            continue                      # the debugger cannot change this global
+        nshared += 1
+        readers = set(G.readers[k])
+        done = set()
+        while readers - done:
+            r = sorted(readers - done)[0]
+            done.add(r)
+            for h in sorted(ctx.cg.callers(r)):
+                hf = prog.fns.get(h)
+                if hf is None or hf.bkind != "fn":
+                    continue
+                sites = [b for b, t, c in hf.calls() if c == r]
+                if not sites:
+                    continue
+                tested = []
+                for b in sorted(hf.live_blocks()):
+                    t = hf.term(b)
+                    if t["k"] == "switch" and any(x[0] == "call" and x[1] == r for x in expr_walk(hf.expr(t["a"], 6))):
+                        tested.append(b)
+                if not tested:
+                    readers.add(h)        # hands the value on: its callers are the ones that branch on it
+                    continue
+                sm = hf.succ_map()
+                for sb in tested:
+                    succs = sm[sb]
+                    rs = [hf.reachable(x) for x in succs]
+                    common = set.intersection(*rs) if rs else set()
+                    controlled = set.union(*rs) - common if rs else set()
+                    ctx.instance(1, {"global": short(k), "tested_in": short(h), "at": sp_file_line(hf.term(sb).get("sp"))})
+                    bad = []
+                    for cb in sorted(controlled):
+                        t = hf.term(cb)
+                        if t["k"] == "call":
+                            w = reaches_stdout(t)
+                            if w:
+                                bad.append((cb, w))
+                    ctx.oblig(not bad, {"controlled region of %s" % short(h): "no stdout write"}, "call-graph reachability to _print/stdout")
+                    for cb, w in bad:
+                        ctx.violation("stdout-depends|global=%s|fn=%s" % (short(k), short(h)), sp_file_line(hf.term(cb).get("sp")),
+                                      "`%s` writes to stdout (via %s) only when `%s` says so, and the debugger's own output changes that global: "
+                                      "the program's stdout differs between a plain and a debugged run" % (short(h), short(w), short(r)))
+    ctx.need(nshared >= 1, "a global written by debugger output (the line tracker)")
+    ctx.finish_rule()
+
